@@ -227,6 +227,9 @@ package jet
 //@   ensures PInv(t) && t.peekCount <= 2 && result0 != nil && WFTag(result0) && fresh(result0)
 //@   callsite (*Template).newAdditiveExpr 0 requires [unary-sign-binds-tightest] {C04} left == nil && right == lastret("(*Template).operand", 0) && (item.typ == itemMinus || item.typ == itemAdd)
 //@   callsite (*Template).newNotExpr 0 requires [not-applies-to-a-comparison] {C04} expr == lastret("(*Template).comparativeExpression", 0)
+//@   check [a-sign-always-builds-a-unary-node] {C04} next.typ == itemMinus || next.typ == itemAdd ==> result0 == iface(lastret("(*Template).newAdditiveExpr", 0), "*AdditiveExprNode")
+//@   check [a-not-always-builds-a-not-node] {C04} next.typ == itemNot ==> result0 == iface(lastret("(*Template).newNotExpr", 0), "*NotExprNode")
+//@   check [an-operand-without-a-prefix-operator-is-returned-as-it-is] {C04} next.typ != itemMinus && next.typ != itemAdd && next.typ != itemNot ==> result0 == lastret("(*Template).operand", 0)
 //@   callsite (*Template).operand count 2
 //@   callsite (*Template).comparativeExpression count 1
 //@   callsite (*Template).parseExpression count 0
